@@ -40,6 +40,12 @@ def run(tier, seed, res):
                        "a read-only access by the owner device whose copy is OWNED takes parsec_device_data_stage_in's 'already in place' "
                        "path (no ownership call; label owner_read_fast_path) unless C26_OWNER_READ_VIA_TRANSFER=1: see "
                        "corpus/C26/regress/owner_read_then_stale_reader.txt"]
+    # known findings (known_findings.json is maintained by the framework owner): replay must still fail -> KNOWN-FINDING line
+    for f in core.known_for(PROP):
+        if f.get("replay"):
+            ok, _ = replay(os.path.join(core.VERIF, f["replay"]))
+            if not ok:
+                res.known.append(f.get("what", f.get("id", "?")))
     env_extra = {}
     if os.environ.get("C26_OWNER_READ_VIA_TRANSFER") == "1":
         env_extra["C26_OWNER_READ_VIA_TRANSFER"] = "1"
